@@ -94,6 +94,20 @@ func init() {
 		Assume: []string{"schedules are not explored: what is decided is lock ownership at every access site on every control-flow path"},
 	})
 	reg(&PropDef{
+		ID:       "C19",
+		Level:    "proof",
+		WasmLoad: true,
+		Funcs: []string{"tcell.paletteColor", "tcell.(*wScreen).drawCell", "tcell.(*wScreen).clearScreen", "tcell.(*wScreen).draw", "tcell.(*wScreen).postEvent", "tcell.(*wScreen).onMouseEvent", "tcell.(*wScreen).onPaste", "tcell.(*wScreen).onFocus", "tcell.(*wScreen).Show"},
+		Custom:   []func(*PropRun){c19Balance, c19KeyTable},
+		Trusted: []string{"webfiles/tcell.js implements the calls it receives (JavaScript, outside the verifier)",
+			"syscall/js: Value.Int/Bool/String are functions of the value; Call/Set/FuncOf do not touch Go state (assumed contracts in spec/trusted/js.spec)",
+			"sync.Mutex semantics; absence of self-deadlock follows from lock balance on every path",
+			"DOM naming: MouseEvent.which 1/2/3 = left/middle/right; KeyboardEvent.key names map to tcell key constants by the rule in govc/c19.go (domKeyConst)"},
+		Assume: []string{"cell widths are non-negative (CellBuffer invariant kept by SetContent/Fill/Resize; stated as a precondition of draw/Show)",
+			"draw: completeness of the scan (every changed cell is visited) is proved for buffers without wide or blank-normalised cells; for wide cells only 'every visited cell is a cell of the screen and unchanged cells are not touched' is proved",
+			"not decided: which handler enableMouse/enablePasting/EnableFocus install (function values passed to JavaScript), Sync, SetSize's effect on the page, the JavaScript side"},
+	})
+	reg(&PropDef{
 		ID:    "C20",
 		Level: "proof",
 		Funcs: []string{"views.(*ViewPort).ValidateViewX", "views.(*ViewPort).ValidateViewY", "views.(*ViewPort).ValidateView",
@@ -315,3 +329,50 @@ func (verifTty) Close() error                      { return nil }
 		}
 	}
 }
+
+func c19Balance(run *PropRun) {
+	lc := run.Eng.Specs.LockClasses["wScreen"]
+	if lc == nil {
+		run.Errors = append(run.Errors, "no lockclass for wScreen in the contract files")
+		return
+	}
+	RunDiscipline(run, run.Eng, lc)
+	for _, g := range run.Groups {
+		if !strings.HasSuffix(g.Name, "/lock-balanced") || !strings.HasPrefix(g.Name, "wScreen.(*wScreen).") {
+			continue
+		}
+		m := strings.TrimSuffix(strings.TrimPrefix(g.Name, "wScreen.(*wScreen)."), "/lock-balanced")
+		if strings.Contains(m, "$") {
+			continue
+		}
+		g.ReplayGo = replayTest("tcell", []string{"reflect", "syscall/js"}, wasmStubs+`
+	s := &wScreen{}
+	s.fallback = make(map[rune]string)
+	s.Init()
+	mv := reflect.ValueOf(s).MethodByName("`+m+`")
+	if !mv.IsValid() {
+		// unexported: callbacks take (js.Value, []js.Value)
+		fail("method `+m+` is not exported; no replay")
+		return
+	}
+	var in []reflect.Value
+	mt := mv.Type()
+	for i := 0; i < mt.NumIn(); i++ {
+		if mt.IsVariadic() && i == mt.NumIn()-1 {
+			break
+		}
+		in = append(in, reflect.Zero(mt.In(i)))
+	}
+	mv.Call(in)
+	if !s.TryLock() {
+		fail("after `+m+`() on a running screen the screen mutex is still held: the next locking call deadlocks")
+		return
+	}
+	s.Unlock()`)
+	}
+}
+
+const wasmStubs = `//verif:wasm
+	for _, n := range []string{"drawCell", "clearScreen", "show", "showCursor", "resize", "beep", "setTitle", "setCursorStyle"} {
+		js.Global().Set(n, js.FuncOf(func(this js.Value, args []js.Value) interface{} { return nil }))
+	}`
